@@ -5,6 +5,7 @@ import (
 	"sync"
 
 	"github.com/koron-go/z80"
+	"github.com/koron-go/z80/internal/tinycpm"
 	"github.com/koron-go/z80/verif/mon"
 )
 
@@ -378,6 +379,81 @@ func runC10(c *Ctx) {
 	}
 	evals += alternations
 
+	// (e) the outcome depends only on the bytes memory returns, not on the
+	// memory's type: the same program on the monitor memory, on z80.DumbMemory,
+	// on a fully populated z80.MapMemory and on tinycpm.Memory, handed to the
+	// CPU directly (no monitor in between)
+	var typeRuns int64
+	Parallel(nprog, func(pi int) {
+		defer func() {
+			if pn := recover(); pn != nil {
+				c.R.Violation("C10/panic", map[string]interface{}{"program": pi, "panic": fmt.Sprint(pn), "what": "Step panicked on a bundled memory type"})
+			}
+		}()
+		cs := cases[pi]
+		ref := &mon.Mem{}
+		ref.Fill(cs.Fill)
+		cs.P.Install(ref)
+		image := ref.Data
+		chain := func(mem z80.Memory) ([]uint64, func(uint16) uint8) {
+			cpu := &z80.CPU{States: cs.P.Init, Memory: mem, IO: &mon.IO{Seed: cs.IOSeed}}
+			var out []uint64
+			h := uint64(0)
+			for i := 0; i < c10MaxSteps; i++ {
+				cpu.Step()
+				h = stateHash(h, &cpu.States, nil)
+				out = append(out, h)
+				if cpu.HALT && cpu.PC == cs.P.HaltAddr {
+					break
+				}
+			}
+			return out, mem.Get
+		}
+		want, wget := chain(ref)
+		dm := make(z80.DumbMemory, 65536)
+		copy(dm, image[:])
+		mm := z80.MapMemory{}
+		for a := 0; a < 65536; a++ {
+			mm[uint16(a)] = image[a]
+		}
+		tm := tinycpm.NewMemory()
+		for a := 0; a < 65536; a++ {
+			tm.Set(uint16(a), image[a])
+		}
+		for name, m := range map[string]z80.Memory{"DumbMemory": dm, "MapMemory": mm, "tinycpm.Memory": tm} {
+			got, get := chain(m)
+			bad := ""
+			if len(got) != len(want) {
+				bad = "run length differs"
+			} else {
+				for i := range got {
+					if got[i] != want[i] {
+						bad = fmt.Sprintf("states diverge at Step %d", i+1)
+						break
+					}
+				}
+			}
+			if bad == "" {
+				for a := 0; a < 65536; a++ {
+					if get(uint16(a)) != wget(uint16(a)) {
+						bad = fmt.Sprintf("final memory differs at %04X", a)
+						break
+					}
+				}
+			}
+			mu.Lock()
+			typeRuns++
+			mu.Unlock()
+			if bad != "" {
+				c.R.Violation("C10/memory-type/"+name, map[string]interface{}{
+					"what": "the same program and bytes give a different outcome on " + name + " handed to the CPU directly: " + bad,
+					"program": pi, "code": HexBytes(cs.P.Code)})
+			}
+		}
+	})
+	evals += typeRuns
+	c.R.Set("memory_type_runs", typeRuns)
+
 	// race detector reports
 	prefix := mon.RaceLogPrefix()
 	reports := mon.RaceReports(prefix, "github.com/koron-go/z80", "github.com/koron-go/z80/verif")
@@ -422,6 +498,6 @@ func runC10(c *Ctx) {
 	c.R.Set("goroutine_counts", map[string]int64{"2": gcounts[2], "4": gcounts[4], "8": gcounts[8], "16": gcounts[16]})
 	c.R.Set("alternating_pairs", alternations)
 	c.R.Set("exhaustive", false)
-	c.R.Set("rule", "generated programs over all instruction classes incl. prefixes, block repeats, undefined DD/FD/ED sequences and NMI/INT (all modes) raised by bus callbacks; (a) two runs from equal state compared per Step by digests of States+pending request+bus/port traffic; (b) at EVERY Step boundary k a CPU rebuilt from copies of States, the memory image, the device state and the pending request is run against a value copy of the original CPU (which keeps any hidden per-instance state), for 40 Steps (to the end from every 8th point), once as is and once with a fresh request injected at that boundary on both; (c) rounds of 2/4/8/16 goroutines each driving its own CPU behind a barrier, digests compared with the sequential baseline; (d) pairs of different programs stepped alternately; the whole binary runs under the Go race detector (halt_on_error=0, reports collected from log_path and attributed to z80 frames). Distinct = distinct (program, snapshot point) + concurrent rounds; every snapshot executes at least one Step")
+	c.R.Set("rule", "generated programs over all instruction classes incl. prefixes, block repeats, undefined DD/FD/ED sequences and NMI/INT (all modes) raised by bus callbacks; (a) two runs from equal state compared per Step by digests of States+pending request+bus/port traffic; (b) at EVERY Step boundary k a CPU rebuilt from copies of States, the memory image, the device state and the pending request is run against a value copy of the original CPU (which keeps any hidden per-instance state), for 40 Steps (to the end from every 8th point), once as is and once with a fresh request injected at that boundary on both; (c) rounds of 2/4/8/16 goroutines each driving its own CPU behind a barrier, digests compared with the sequential baseline; (d) pairs of different programs stepped alternately; (e) each program also on z80.DumbMemory, a fully populated z80.MapMemory and tinycpm.Memory handed to the CPU directly: per-Step state digests and the final image must equal the run on the monitor memory; the whole binary runs under the Go race detector (halt_on_error=0, reports collected from log_path and attributed to z80 frames). Distinct = distinct (program, snapshot point) + concurrent rounds; every snapshot executes at least one Step")
 	c.R.Assume("CPU.HALT is not part of the rebuilt state (Step never reads it); R is included in the comparison")
 }
